@@ -1,9 +1,10 @@
 import HvsrVerif.Generated.Tables
-/-! Bridge C12: the azimuth label written to the header and the regular expression the reader uses to find it. -/
+/-! Bridge C12: the azimuth label written to the header and the regular expression the reader uses to find it (two groups since the
+repair of C12-d: the azimuth and the curve number, which `Model/ObjectIO.lean::groupNumbered` consumes). -/
 namespace HV.Bridge
 theorem azimuth_label_format :
     Generated.azimuthLabelFormat = none ∨ Generated.azimuthLabelFormat = some "azimuth {azimuth} deg | hvsr curve {curve_idx}" := by decide
 theorem azimuth_regex :
     Generated.azimuthRegex = none ∨
-    Generated.azimuthRegex = some "azimuth (\\d+\\.?\\d*(?:[eE][-+]?\\d+)?) deg \\| hvsr curve \\d+" := by decide
+    Generated.azimuthRegex = some "azimuth (\\d+\\.?\\d*(?:[eE][-+]?\\d+)?) deg \\| hvsr curve (\\d+)" := by decide
 end HV.Bridge
